@@ -94,7 +94,11 @@ def group(recs):
     return list(g.values())
 
 
-def build(rec, rnd):
+# the class "x" stands for any ordinary character: every input draws its own
+ORDINARY = ["x", "x", "%", "%s", "%%", "%(k)s", "\\", "#", "@", ";", ":", "\u00e9", "\u2028", "\x0b", "|", "`", "~", "^", "*", "?", "\t"]
+
+
+def build(rec, rnd, CH=CH):
     """concrete inner text, list of (part index -> expr source) and skip reason"""
     ctx = rec["ctx"]
     parts = rec["parts"]
@@ -118,7 +122,7 @@ def build(rec, rnd):
     return text, exprs
 
 
-def ambiguous(rec, text, exprs):
+def ambiguous(rec, text, exprs, CH=CH):
     """inputs outside the generator's unambiguity constraint (DESIGN C06):
     a '$' run directly followed by a literal '{', or a brace group after which
     a longer candidate up to a later '}' is itself a valid expression"""
@@ -184,7 +188,7 @@ def wrap(rec, text):
     return "<r>" + opens + body + closes + "</r>"
 
 
-def expected(rec, beh, exprs):
+def expected(rec, beh, exprs, CH=CH):
     out = ""
     for a in beh["out"]:
         if a["a"] == "ch":
@@ -218,8 +222,9 @@ def _chunk(groups, seed, textfile):
     sample = None
     for g in groups:
         rec = g[0]
-        text, exprs = build(rec, rnd)
-        if ambiguous(rec, text, exprs):
+        ch = dict(CH, x=rnd.choice(ORDINARY))
+        text, exprs = build(rec, rnd, ch)
+        if ambiguous(rec, text, exprs, ch):
             skipped += 1
             continue
         src = wrap(rec, text)
@@ -237,7 +242,7 @@ def _chunk(groups, seed, textfile):
         except Exception as ex:
             got = "EXC %s: %s" % (type(ex).__name__, str(ex).splitlines()[:1])
         n += 1
-        allowed = [(expected(rec, b, exprs), b["evals"]) for b in g]
+        allowed = [(expected(rec, b, exprs, ch), b["evals"]) for b in g]
         if rec["ctx"] == "qcomment":
             # whether the '?' marker itself is kept is not fixed by the property
             allowed += [(w.replace("<!--x", "<!--?x", 1), ev) for w, ev in allowed]
